@@ -52,7 +52,7 @@ def floors(tier):
     return {'evaluations': 15000, 'distinct_nontrivial': 4000, 'callbacks_checked': 200000,
             'none_placeholders_seen': 2000, 'histkeys:callback': 9, 'trees_with_none_body_or_args': 50,
             'empty_nodelist_arguments_seen': 500, 'nonempty_nodelist_arguments_seen': 500,
-            'catch_all_visitor_runs': 5000, 'argument_lists_counted': 20000, 'visitor_runs_with_none_results': 3000, 'histkeys:catch_all_for': 9, 'hist:catch_all_for:visit_specials_node': 200}
+            'catch_all_visitor_runs': 5000, 'argument_lists_counted': 20000, 'visitor_runs_with_none_results': 3000, 'revisited_after_legacy_reads': 3000, 'legacy_attribute_reads': 3000, 'histkeys:catch_all_for': 9, 'hist:catch_all_for:visit_specials_node': 200}
 
 
 def setup(rec):
@@ -273,7 +273,28 @@ def check_tree(root, rec, mask=None, none_for=()):
         if not kw_equal(wkw, gkw):
             return 'callback %d (%s on %s) received %r, expected the children results %r' % (
                 i, gname, _d(gobj), gkw, wkw), None
+    check_tree.last_log = [(gname, id(gobj)) for gname, gobj, gkw, gtok in got]
     return None, (len(got), len(kinds))
+
+
+def legacy_reads(nl, rec, how):
+    """What pylatexenc-1/2 style code does with a parsed tree between two traversals: reading the legacy views of the
+    arguments (nodeoptarg, nodeargs, nodeargd) of every macro/environment node, or converting the tree to text."""
+    if how == 'l2t':
+        from pylatexenc.latex2text import LatexNodes2Text
+        try:
+            LatexNodes2Text().nodelist_to_text(nl)
+        except Exception:
+            rec.monitor('legacy_text_conversion_raised')
+        return
+    for n in canon.walk(nl):
+        if isinstance(n, (N.LatexMacroNode, N.LatexEnvironmentNode, N.LatexSpecialsNode)):
+            for a in ('nodeoptarg', 'nodeargs', 'optargs', 'args', 'envname', 'macroname'):
+                try:
+                    getattr(n, a, None)
+                except Exception:
+                    rec.monitor('legacy_attribute_raised')
+            rec.monitor('legacy_attribute_reads')
 
 
 def _d(o):
@@ -297,6 +318,20 @@ def check_case(case, rec):
     err, info = check_tree(nl, rec)
     if not err and info and info[0] >= 5 and info[1] >= 3:
         rec.nontrivial(s)
+    if not err and case.get('legacy'):
+        # the same tree visited again after pylatexenc-2 style code has looked at it: same callbacks on the same objects
+        first = check_tree.last_log
+        before = canon.canon(nl)
+        legacy_reads(nl, rec, case['legacy'])
+        rec.monitor('revisited_after_legacy_reads')
+        if canon.canon(nl) != before:
+            err = 'reading the tree through the legacy interface (%s) altered it' % case['legacy']
+        else:
+            err, _ = check_tree(nl, rec)
+            if not err and check_tree.last_log != first:
+                err = 'second traversal differs from the first (%d vs %d callbacks)' % (len(check_tree.last_log), len(first))
+            if err:
+                err = 'traversal after reading the tree through the legacy interface (%s): %s' % (case['legacy'], err)
     if not err and case.get('none_for'):
         err, _ = check_tree(nl, rec, none_for=case['none_for'])
         if err:
@@ -343,6 +378,7 @@ def run_shard(desc, rec):
                 rec.sample(s)
             check_case({'s': s, 'ctx': {'vocab': 'nlargs'}, 'tolerant': bool(i % 2), 'subtrees': i % 7 == 0,
                         'mask': (0 if i % 4 == 0 else rng.randrange(1 << 10)) if i % 2 else None,
+                        'legacy': [None, 'attrs', None, 'l2t'][i % 4] if i % 5 < 3 else None,
                         'none_for': rng.sample(_KIND_METHODS, rng.randint(1, 4)) if i % 3 == 0 else None}, rec)
         return
     if desc['kind'] == 'soup':
@@ -352,6 +388,7 @@ def run_shard(desc, rec):
                 rec.sample(s)
             check_case({'s': s, 'tolerant': True, 'subtrees': i % 10 == 0,
                         'mask': (0 if i % 4 == 0 else rng.randrange(1 << 10)) if i % 2 == 0 else None,
+                        'legacy': [None, 'attrs', None, 'l2t'][i % 4] if i % 5 < 3 else None,
                         'none_for': rng.sample(_KIND_METHODS, rng.randint(1, 4)) if i % 3 == 0 else None}, rec)
     else:
         src = work.DocSource(rng, desc['vocab'], depth=desc['depth'], cover_base=desc.get('cb', 0))
@@ -362,6 +399,7 @@ def run_shard(desc, rec):
                 rec.sample(s)
             check_case({'s': s, 'ctx': cdesc, 'tolerant': False, 'subtrees': i % 10 == 0,
                         'mask': (0 if i % 4 == 0 else rng.randrange(1 << 10)) if i % 2 == 0 else None,
+                        'legacy': [None, 'attrs', None, 'l2t'][i % 4] if i % 5 < 3 else None,
                         'none_for': rng.sample(_KIND_METHODS, rng.randint(1, 4)) if i % 3 == 0 else None}, rec)
 
 
